@@ -185,6 +185,23 @@ def lean_obligations(prop, thorough=False):
 def build_engine(engine):
     with Lock("cargo"):
         rc, out, err = sh(["cargo", "build", "--release", "--offline", "--bin", engine], cwd=HARNESS, timeout=3000)
+        if rc == 0 and engine == "macros":
+            # the macros expanded in a crate built with cfg(test): an integration test, copied next to the engine
+            rc, out, err = sh(["cargo", "test", "--release", "--offline", "--test", "macros_cfg_test", "--no-run", "--message-format=json"],
+                              cwd=HARNESS, timeout=3000)
+            exe = None
+            for l in out.splitlines():
+                try:
+                    d = json.loads(l)
+                except Exception:
+                    continue
+                if d.get("reason") == "compiler-artifact" and d.get("target", {}).get("name") == "macros_cfg_test" and d.get("executable"):
+                    exe = d["executable"]
+            if rc == 0 and exe:
+                import shutil
+                shutil.copy(exe, os.path.join(HARNESS, "target", "release", "macros_cfg_test"))
+            elif rc == 0:
+                rc, err = 1, "macros_cfg_test: no executable reported by cargo"
         if rc == 0 and engine in ("macros", "fmt", "holder"):
             # second build with debug assertions and overflow checks off (cases `macn`)
             rc, out, err = sh(["cargo", "build", "--profile", "nodebug", "--offline", "--bin", engine], cwd=HARNESS, timeout=3000)
@@ -303,7 +320,7 @@ SHRINK_FIELDS = {"mlw": [1, 3, 4], "spy": [3], "fmt": [4], "queue": [3], "queue0
 
 ENGINE_OF = {"mlw": "mlw", "spy": "mlw", "fmt": "fmt", "std": "fmt", "val": "fmt", "raw": "fmt", "queue": "queue", "qstress": "queue", "queue0": "queue",
              "qburst": "queue", "qlatency": "queue", "qdroprace": "queue",
-             "sock": "sock", "sockmt": "sock", "socklock": "sock", "sockcr": "sock", "holder": "holder", "mac": "macros", "macn": "macros",
+             "sock": "sock", "sockmt": "sock", "socklock": "sock", "sockcr": "sock", "holder": "holder", "mac": "macros", "macn": "macros", "mact": "macros",
              "qemitdrop": "queue", "qdeep": "queue", "sockbig": "sock", "sockstrace": "sock", "hdl": "fmt", "fmtn": "fmt", "cfl": "mlw", "holdern": "holder"}
 
 
